@@ -5,7 +5,9 @@ usage: python3 vlib/mutants_c09_c17.py <C09|C17> <name>[+<name>...] ...
 Applies the named textual mutation(s) to a scratch copy of /repo under /var/tmp, runs
 `VERIF_REPO=<copy> ./check.py <PROP> --tier quick`, prints the verdict and deletes the copy.
 Names starting with fix_ are the proposed repairs (expected verdict: exit 0), everything else is a
-bug that the check is expected to report (exit 1)."""
+bug that the check is expected to report (exit 1).  fix_d10, fix_d11 and fix_pers were written against
+the pinned tree and are in /repo since dbb06b7 / 8deccea / 59829e8 (their patterns no longer match);
+the proposed repair of F17-TIE is findings/C17.patch (apply it to a scratch copy with `patch -p1`)."""
 import os, subprocess, sys, shutil
 
 W = os.path.dirname(os.path.dirname(os.path.abspath(__file__)))
